@@ -20,10 +20,21 @@ tags = [None, True, False, 0, 5, -1, 1.5, 0.0, float("inf"), [], ["a"], ["a.b"],
 if a.tier == "thorough":
     tags += [x + "." + y for x, y in itertools.product(["", "os", "json", "krrood.adapters", "nonexistent_mod_xyz"], ["", "x", "path", "JSONDecoder", "json_serializer", "T"])]
 
+import uuid
+
+
+class TrackedUUID(uuid.UUID):
+    """An unregistered subclass of a registered third-party type (tag: __main__.TrackedUUID)."""
+
+
+tags += ["__main__.TrackedUUID", "__main__.MISSING", "__main__.rep", "builtins.None", "builtins.Ellipsis", "builtins.True"]
 MISSING = object()
 for t in [MISSING] + tags:
     data = {"payload": 1} if t is MISSING else {js.JSON_TYPE_NAME: t, "value": "12345678-1234-5678-1234-567812345678"}
     st, r = guarded(lambda: js.from_json(data))
+    st_again, r_again = guarded(lambda: js.from_json(dict(data)))
+    if (st, type(r)) != (st_again, type(r_again)):
+        rep.fail(f"unstable::{type(r_again).__name__}", f"tag {t!r}: first call {st} {type(r).__name__}, second call {st_again} {type(r_again).__name__}: {r_again}", {"tag": repr(t)})
     rep.case(repr(t), sample={"tag": repr(t), "outcome": type(r).__name__ if st == "exc" else "returned " + type(r).__name__})
     def hands_over(t):
         try:
@@ -40,8 +51,11 @@ for t in [MISSING] + tags:
         # a value may only come from a SubclassJSONSerializer subclass or a registered deserialiser
         mod, _, name = t.rpartition(".")
         target = getattr(importlib.import_module(mod), name)
-        if not (isinstance(target, type) and (issubclass(target, js.SubclassJSONSerializer) or js.JSONSerializableTypeRegistry().get_deserializer(target))):
+        reg = js.JSONSerializableTypeRegistry()
+        if not (isinstance(target, type) and (issubclass(target, js.SubclassJSONSerializer) or target in reg._deserializers)):
             rep.fail("wrong-object", f"tag {t!r} returned {r!r}", {"tag": repr(t)})
+        elif not isinstance(r, target):
+            rep.fail("wrong-object", f"tag {t!r} returned an object of {type(r).__name__}", {"tag": repr(t)})
     elif t is MISSING or t is None:
         if type(r) is not js.MissingTypeError:
             rep.fail("mapping::missing", f"tag {t!r}: {type(r).__name__}", {"tag": repr(t)})
